@@ -317,10 +317,14 @@ class RedshiftBinningFactory:
         redshift."""
         comov_min, comov_cmax = self.cosmology.comoving_distance([min, max])
         comov_edges = np.linspace(comov_min, comov_cmax, num_bins + 1)
-        if not isinstance(comov_edges, units.Quantity):
+        comov_func = self.cosmology.comoving_distance
+        if not isinstance(comov_edges, units.Quantity):  # custom cosmology
             comov_edges = comov_edges * units.Mpc
 
-        edges = z_at_value(self.cosmology.comoving_distance, comov_edges).value
+            def comov_func(z):
+                return self.cosmology.comoving_distance(z) * units.Mpc
+
+        edges = z_at_value(comov_func, comov_edges).value
         edges[0], edges[-1] = min, max  # numerical inversion is not exact
         return Binning(edges, closed=closed)
 
